@@ -40,6 +40,8 @@ def validate(name):
         shutil.copytree(REPO / 'src', tmp / 'src', ignore=shutil.ignore_patterns('__pycache__'))
         rc, txt = sh(['git', 'apply', '--whitespace=nowarn', str(sd / 'patch.diff')], cwd=tmp)
         if rc != 0:
+            rc, txt = sh(['patch', '-p1', '--no-backup-if-mismatch', '-i', str(sd / 'patch.diff')], cwd=tmp)
+        if rc != 0:
             return name, [('-', 'does not apply', '')]
         for pid in others:
             cenv = dict(os.environ, VERIF_REPO=str(tmp), VERIF_OUT=str(tmp / f'out_{pid}'), VERIF_SELFTEST='1')
